@@ -83,6 +83,7 @@ type Result struct {
 // ---- heap sampler ----
 
 var (
+	dumpBuf      = make([]byte, 4<<20) // goroutine dump of a hung request
 	samplerOnce  sync.Once
 	heapBase     atomic.Uint64 // live heap when the request in flight started (0: none in flight)
 	heapPeakLive atomic.Uint64 // largest heap of the request in flight measured right after a forced GC
@@ -249,6 +250,10 @@ func (r *runner) guarded(i int, rpc string, feats map[string]bool, msg validatab
 	// still executed (an embedding program could pass it), but whatever goes wrong is
 	// only counted ("out-of-domain:<signature>"), never reported as a violation.
 	defer func() {
+		if r.progress != nil {
+			// the call is over: what follows (measuring, building the next input) is harness work
+			r.progress(setupPhase, "(after "+rpc+")", "")
+		}
 		if fail != nil && wire != "ok" {
 			rr.Outcome = "out-of-domain-" + rr.Outcome
 			r.res.OutOfDomain = append(r.res.OutOfDomain, fail.Signature)
@@ -294,8 +299,8 @@ func (r *runner) guarded(i int, rpc string, feats map[string]bool, msg validatab
 		r.res.Dirty = true
 		rr.WallMs = float64(time.Since(start).Milliseconds())
 		rr.Outcome = "hang"
-		buf := make([]byte, 4<<20)
-		buf = buf[:runtime.Stack(buf, true)]
+		// (buffer allocated up front: with a starved collector a large allocation here never returns)
+		buf := dumpBuf[:runtime.Stack(dumpBuf, true)]
 		dump := openfgaGoroutines(string(buf))
 		return rr, &Fail{Signature: "C19/hang-past-deadline:" + hotFrame(dump, rpc), Timing: true, ReqIndex: i,
 			Msg: fmt.Sprintf("%s did not return within %v of its %v deadline (still running after %v); passed Validate(): %v, wire-deliverable: %s\ngoroutines running server code:\n%s",
